@@ -192,7 +192,11 @@ class Caller(object):
                     exc[xy] = {par.Cores: 1 + t.draw(ncores),
                                par.SDRAM: [100000, 5000][t.draw(2)],
                                par.SRAM: 1024}
-        machine = par.Machine(W, H, collections.OrderedDict(
+        MachineCls = par.Machine
+        if t.draw(5) == 0:
+            # the caller's own subclass of Machine
+            MachineCls = type("MyMachine", (par.Machine,), {"site": "lab"})
+        machine = MachineCls(W, H, collections.OrderedDict(
             [(par.Cores, ncores), (par.SDRAM, 100000),
              (par.SRAM, 1024)]),
             exc, dead, dead_links)
